@@ -166,11 +166,11 @@ Qed.
 
 (* ---------- per-axis facts about check_slice / slice_details ---------- *)
 Lemma check_slice_spec st en sp sz :
-  check_slice st en sp sz = true <-> st <= en /\ 0 <= st /\ st < sz /\ ~ (sp = 0 /\ 1 < en - st).
+  check_slice st en sp sz = true <-> st <= en /\ 0 <= st /\ st < sz /\ ~ (sp = 0 /\ 1 < en - st) /\ 0 <= sp.
 Proof. unfold check_slice. lia. Qed.
 
 Lemma check_slice_false st en sp sz :
-  check_slice st en sp sz = false <-> en < st \/ st < 0 \/ sz <= st \/ (sp = 0 /\ 1 < en - st).
+  check_slice st en sp sz = false <-> en < st \/ st < 0 \/ sz <= st \/ (sp = 0 /\ 1 < en - st) \/ sp < 0.
 Proof. unfold check_slice. lia. Qed.
 
 Lemma slice_details_range sl sz start en step :
@@ -707,12 +707,12 @@ Theorem ap_S_rejects a len sl :
   (ap_S a len sl = Err <->
    (length (shp a) < length sl)%nat \/
    exists j sz st en sp, nth_error (shp a) j = Some sz /\ nth_error sl j = Some (Some (st, en, sp)) /\
-     (en < st \/ st < 0 \/ sz <= st \/ (sp = 0 /\ 1 < en - st))).
+     (en < st \/ st < 0 \/ sz <= st \/ (sp = 0 /\ 1 < en - st) \/ sp < 0)).
 Proof.
   intro Hl.
   assert (Hex : any_axis slice_bad (shp a) sl = true <->
     exists j sz st en sp, nth_error (shp a) j = Some sz /\ nth_error sl j = Some (Some (st, en, sp)) /\
-     (en < st \/ st < 0 \/ sz <= st \/ (sp = 0 /\ 1 < en - st))).
+     (en < st \/ st < 0 \/ sz <= st \/ (sp = 0 /\ 1 < en - st) \/ sp < 0)).
   { rewrite any_axis_bad_exists. split; intros (j & sz & st & en & sp & H1 & H2 & H3);
       exists j, sz, st, en, sp; (split; [exact H1|]); (split; [exact H2|]);
       apply check_slice_false; exact H3. }
